@@ -1,3 +1,70 @@
-(* temporary stub *)
-Theorem C11_stub : True. Proof. exact I. Qed.
-Print Assumptions C11_stub.
+(* Props/C11.v — property C11: 1-D linkage clustering follows its stated threshold rule.
+   Only statements, each closed by `exact`, with its assumptions printed. *)
+From Coq Require Import List Arith Bool Reals PrimFloat.
+From Knee Require Import Num NumFloat NumR NpList Model.Clustering Proofs.ClusteringFacts.
+Import ListNotations.
+
+(* Tier S (every Num, hence binary64 with every rounding / NaN / overflow): on a non-empty array each linkage
+   returns labels satisfying the boolean predicate that also judges the implementation:
+   one label per point, first 0, steps 0/1, and label i = label (i-1) + [the code's comparison of t with link_dist i] *)
+Theorem C11_linkage_rule : forall (N : Num) lk (xs : list (T N)) t,
+  xs <> [] -> exists lab, linkage_labels lk xs t = Some lab /\ c11_holdsb lk xs t lab = true.
+Proof. exact @linkage_rule. Qed.
+Print Assumptions C11_linkage_rule.
+
+(* Tier S: one label per point, the first is 0, consecutive labels differ by 0 or 1 (clusters are contiguous runs) *)
+Theorem C11_labels_shape : forall (N : Num) lk (xs : list (T N)) t lab,
+  linkage_labels lk xs t = Some lab ->
+  length lab = length xs /\ hd 1 lab = 0 /\
+  (forall i, S i < length lab -> nth (S i) lab 0 = nth i lab 0 \/ nth (S i) lab 0 = S (nth i lab 0)).
+Proof. exact @labels_shape. Qed.
+Print Assumptions C11_labels_shape.
+
+(* Tier S: the label increases at i iff the code's comparison succeeds on link_dist i — the gap to the previous point
+   (single), the distance to the first member (complete), to the running centroid (centroid), the mean distance to the
+   members (average) of the cluster of point i-1, each divided by the x range.  newb is `leb t d` (i.e. d >= t, not >)
+   for single/complete/average and `negb (ltb d t)` for centroid *)
+Theorem C11_new_cluster_iff : forall (N : Num) lk (xs : list (T N)) t lab,
+  linkage_labels lk xs t = Some lab ->
+  forall i, 1 <= i -> i < length xs ->
+    (nth i lab 0 = S (nth (i - 1) lab 0) <-> newb lk t (link_dist lk xs lab i) = true) /\
+    (nth i lab 0 = nth (i - 1) lab 0 <-> newb lk t (link_dist lk xs lab i) = false).
+Proof. exact @new_cluster_iff. Qed.
+Print Assumptions C11_new_cluster_iff.
+
+(* Tier O on binary64: unless t or the distance is NaN, the comparison is `t <= distance` for all four linkages *)
+Theorem C11_new_cluster_geb_float : forall lk (t d : float),
+  f_isnan t = false -> f_isnan d = false -> @newb FloatNum lk t d = PrimFloat.leb t d.
+Proof. exact newb_geb_float. Qed.
+Print Assumptions C11_new_cluster_geb_float.
+
+(* Tier A (RNum): on strictly increasing x with at least two points the number of single- and complete-linkage
+   clusters does not increase when t grows (complete linkage: anchor dominance) *)
+Theorem C11_single_complete_monotone : forall (lk : linkage) (xs : list R) (t t' : R) lab lab',
+  lk = Single \/ lk = Complete ->
+  incrR xs -> 2 <= length xs -> (t <= t')%R ->
+  @linkage_labels RNum lk xs t = Some lab -> @linkage_labels RNum lk xs t' = Some lab' ->
+  nclusters lab' <= nclusters lab.
+Proof. exact single_complete_monotone. Qed.
+Print Assumptions C11_single_complete_monotone.
+
+(* non-vacuity: x range 12.5; the complete-linkage distance of the last point to its anchor (x = 10) is exactly 0.2:
+   at t = 0.2 it starts a cluster (>=), at the next double above 0.2 it does not; the average-linkage distance of
+   point 3 is exactly 0.16 and t = 0.16 splits there; the predicate accepts the model's labels and rejects others *)
+Definition ex_xs : list float := [0; 1; 2; 3; 10; 11; 12.5]%float.
+Example C11_example :
+  @linkage_labels FloatNum Complete ex_xs 0.2%float = Some [0; 0; 0; 1; 2; 2; 3] /\
+  @linkage_labels FloatNum Complete ex_xs 0x1.999999999999bp-3%float = Some [0; 0; 0; 1; 2; 2; 2] /\
+  @link_dist FloatNum Complete ex_xs [0; 0; 0; 1; 2; 2; 3] 6 = 0.2%float /\
+  @linkage_labels FloatNum Single ex_xs 0.16%float = Some [0; 0; 0; 0; 1; 1; 1] /\
+  @linkage_labels FloatNum Centroid ex_xs 0.16%float = Some [0; 0; 0; 1; 2; 2; 3] /\
+  @linkage_labels FloatNum Average ex_xs 0.16%float = Some [0; 0; 0; 1; 2; 2; 3] /\
+  @link_dist FloatNum Average ex_xs [0; 0; 0; 1; 2; 2; 3] 3 = 0.16%float /\
+  @c11_holdsb FloatNum Average ex_xs 0.16%float [0; 0; 0; 1; 2; 2; 3] = true /\
+  @c11_holdsb FloatNum Average ex_xs 0.16%float [0; 0; 0; 0; 1; 1; 2] = false /\
+  @c11_holdsb FloatNum Complete ex_xs 0.2%float [0; 0; 0; 1; 2; 2; 2] = false.
+Proof. vm_compute. repeat split. Qed.
+
+(* the hypotheses of the monotonicity theorem are satisfiable *)
+Example C11_example_incr : incrR [0; 1; 3; 4]%R /\ 2 <= length [0; 1; 3; 4]%R.
+Proof. cbn. repeat split; try Lra.lra; Lia.lia. Qed.
